@@ -30,11 +30,16 @@ def apply_adds(sketches, adds):
                 sk.add(key, mult)
 
 
-def _trace(trace_path, idx):
+def _trace(trace_path, idx, sketches=()):
+    """side channel: (pid, item index, name of the shared-memory block the first sketch is attached
+    to); the block name tells the harness which worker (creation order in parallel_add) this is"""
     if trace_path:
+        name = "-"
+        if sketches:
+            name = getattr(getattr(sketches[0], "existing_shm", None), "name", "-") or "-"
         fd = os.open(trace_path, os.O_WRONLY | os.O_APPEND | os.O_CREAT, 0o644)
         try:
-            os.write(fd, ("%d %d\n" % (os.getpid(), idx)).encode())
+            os.write(fd, ("%d %d %s\n" % (os.getpid(), idx, name)).encode())
         finally:
             os.close(fd)
 
@@ -45,7 +50,7 @@ def process_item(item, *sketches, trace_path=None, die_on_kth=None, die_flag=Non
     drain the queue before the others have finished importing the package."""
     idx, adds, ret, mode, cut = item
     _calls_in_this_process[0] += 1
-    _trace(trace_path, idx)
+    _trace(trace_path, idx, sketches)
     if delay:
         import time
         time.sleep(delay)
